@@ -19,6 +19,8 @@ structure SoftwareT where
   healthActual : Nat
   healthVisible : Nat
   numExec : Nat := 0
+  /-- an FTP client/server that moved no data in this step (`FTPServiceABC._active` is false) -/
+  idleFtp : Bool := false
   deriving Repr
 
 structure FileT where
@@ -87,8 +89,12 @@ structure Truth where
 
 /-! ## describe_state() -/
 
+/-- `FTPServiceABC.describe_state` overrides `operating_state`: a RUNNING (1) FTP service that is not transferring in this step is
+described as STOPPED (2) -/
+def describedOp (s : SoftwareT) : Nat := if s.idleFtp = true ∧ s.op = 1 then 2 else s.op
+
 def describeSoftware (s : SoftwareT) : String × SoftwareState :=
-  (s.name, { op := s.op, healthActual := s.healthActual, healthVisible := s.healthVisible, numExec := s.numExec })
+  (s.name, { op := describedOp s, healthActual := s.healthActual, healthVisible := s.healthVisible, numExec := s.numExec })
 
 def describeFile (f : FileT) : String × FileState := (f.name, { health := f.health, visible := f.visible, numAccess := f.numAccess })
 
@@ -123,6 +129,10 @@ def describe (t : Truth) : SimState := { nodes := t.nodes.map describeNode, link
 
 def Truth.node (t : Truth) (h : String) : Option NodeT := t.nodes.find? (fun n => n.hostname = h)
 
+/-- operating-state leaf: the state's enumeration value; FTP services show RUNNING only while they transfer data (documented in
+`FTPServiceABC.describe_state`), otherwise STOPPED -/
+def specOp (s : SoftwareT) : Nat := if s.op = 1 ∧ s.idleFtp = true then 2 else s.op
+
 /-- health leaf of a software item: last-scanned value iff scanning is required -/
 def specHealth (scan : Bool) (s : SoftwareT) : Nat := if scan then s.healthVisible else s.healthActual
 
@@ -135,7 +145,7 @@ def ServiceObs.spec (o : ServiceObs) (t : Truth) : Val :=
     | some n =>
       match n.services.find? (fun s => s.name = name) with
       | none => serviceDefault
-      | some s => .dict [(.s "operating_status", .int s.op), (.s "health_status", .int (specHealth o.scan s))]
+      | some s => .dict [(.s "operating_status", .int (specOp s)), (.s "health_status", .int (specHealth o.scan s))]
 
 def AppObs.spec (o : AppObs) (t : Truth) : Val :=
   match o.wh with
@@ -146,7 +156,7 @@ def AppObs.spec (o : AppObs) (t : Truth) : Val :=
     | some n =>
       match n.apps.find? (fun s => s.name = name) with
       | none => appDefault
-      | some s => .dict [(.s "operating_status", .int s.op), (.s "health_status", .int (specHealth o.scan s)),
+      | some s => .dict [(.s "operating_status", .int (specOp s)), (.s "health_status", .int (specHealth o.scan s)),
                          (.s "num_executions", .int (categorise o.thr s.numExec))]
 
 /-- the live file named `fi` in the live folder named `fo` of node `h` -/
